@@ -52,4 +52,6 @@ pub broadcast proof fn axiom_nanos_nonneg(d: std::time::Duration) ensures #[trig
 //@trusted std::time::Duration: opaque value (only passed through, never computed with in the verified functions); its length in nanoseconds is a non-negative integer
 
 pub assume_specification<T> [std::mem::drop] (_0: T);
+pub assume_specification<T: Default> [core::mem::take] (dest: &mut T) -> (r: T) ensures r == *old(dest);
+//@trusted std::mem::take: returns the old value (the value left behind, Default::default(), is unspecified)
 //@trusted std::mem::drop: consumes its argument, no other effect visible to the contracts
